@@ -197,7 +197,7 @@ pub fn event(tree: &Sx, flag_names: &[String], max_cost: u64, clvm_cost: u64, vi
     let flags = flags_from_names(flag_names);
     let res = run_parse_spends(tree, flags, max_cost, clvm_cost, vis == "mempool", consts);
     merge(
-        json!({"k": "ps", "tree": tree.to_json(), "flags": flag_names, "max": bignat_u64(max_cost), "clvm": bignat_u64(clvm_cost),
+        json!({"k": "ps", "tree": tree.to_jsonf(), "flags": flag_names, "max": bignat_u64(max_cost), "clvm": bignat_u64(clvm_cost),
                "vis": vis, "consts": consts.to_json(), "vk": valid_keys_json(tree)}),
         res,
     )
@@ -739,6 +739,46 @@ pub fn record(args: &Args) {
                     e["frontier"] = json!(true);
                     out.emit(&e);
                 }
+            }
+        }
+    }
+    // pre-hard-fork limit of 1024 announcement-class conditions per spend: 1023, 1024, 1025 of them, two spends at 1024
+    if args.u64("announce-limit", 0) > 0 {
+        let h1 = vec![0x11u8; 32];
+        let h2 = vec![0x22u8; 32];
+        let mk = |count: usize, kind: usize| -> Sx {
+            let mut conds = Vec::new();
+            for i in 0..count {
+                let c = match (i + kind) % 4 {
+                    0 => Sx::list(vec![Sx::A(vec![60]), Sx::uint(i as u128)]),
+                    1 => Sx::list(vec![Sx::A(vec![62]), Sx::uint(i as u128)]),
+                    2 => Sx::list(vec![Sx::A(vec![65]), Sx::A(h2.clone())]),
+                    _ => Sx::list(vec![Sx::A(vec![66]), Sx::uint(0), Sx::uint((i % 7) as u128)]),
+                };
+                conds.push(c);
+            }
+            // the receivers of the mode-0 messages, so that the bundle is otherwise valid
+            Sx::list(conds)
+        };
+        for (count, two) in [(1023usize, false), (1024, false), (1025, false), (1024, true)] {
+            for fl in [vec!["DONT_VALIDATE_SIGNATURE"], vec!["DONT_VALIDATE_SIGNATURE", "COST_CONDITIONS"]] {
+                let flags: Vec<String> = fl.iter().map(|x| (*x).to_string()).collect();
+                // messages are left out of the mix (kind 0..2 only) to keep the bundle valid
+                let mut conds = Vec::new();
+                for i in 0..count {
+                    conds.push(match i % 3 {
+                        0 => Sx::list(vec![Sx::A(vec![60]), Sx::uint(i as u128)]),
+                        1 => Sx::list(vec![Sx::A(vec![62]), Sx::uint(i as u128)]),
+                        _ => Sx::list(vec![Sx::A(vec![65]), Sx::A(h2.clone())]),
+                    });
+                }
+                let _ = &mk;
+                let mut spends = vec![Sx::list(vec![Sx::A(h1.clone()), Sx::A(h2.clone()), Sx::uint(5), Sx::list(conds.clone())])];
+                if two {
+                    spends.push(Sx::list(vec![Sx::A(h2.clone()), Sx::A(h2.clone()), Sx::uint(6), Sx::list(conds.clone())]));
+                }
+                let tree = Sx::list(vec![Sx::list(spends)]);
+                out.emit(&event(&tree, &flags, 11_000_000_000, 0, "empty", &consts));
             }
         }
     }
